@@ -284,6 +284,11 @@ def gen_module(rng, params):
             desc["dt_init"] = rng.choice(code_blocks)["id"]
         if rng.random() < 0.7:
             desc["dt_fini"] = rng.choice(code_blocks)["id"]
+    if rng.random() < params.get("abs_p", 0.3):
+        desc["abs_syms"] = ["ABS%d" % i for i in range(rng.randint(1, 2))]
+    if fmt == "pe" and rng.random() < params.get("seh_p", 0.5):
+        # PE SafeSEH handler list (peSafeExceptionHandlers aux data)
+        desc["safe_seh"] = sorted({rng.choice(code_blocks)["id"] for _ in range(rng.randint(1, 3))})
     return desc
 
 
@@ -417,7 +422,8 @@ def gen_patch(rng, model, params, world_labels, ids, allow_cf=True, in_data=Fals
             elif r2 < 0.9:
                 lines.append({"raw": ".zero %d" % rng.randint(1, 5)})
             elif world_labels["all"] and isa != "arm64":
-                lines.append({"raw": (".quad " if isa == "x64" else ".long ") + rng.choice(world_labels["all"])})
+                pool = world_labels["all"] + (world_labels.get("abs") or []) * 2
+                lines.append({"raw": (".quad " if isa == "x64" else ".long ") + rng.choice(pool)})
             else:
                 lines.append({"raw": ".byte 1"})
             continue
@@ -529,7 +535,7 @@ def labels_of(model):
         if f["name"] in code:
             entries.append(f["name"])
     externs = sorted(model.proxy_syms)
-    return {"code": code, "data": data, "entries": entries, "externs": externs, "all": code + data}
+    return {"code": code, "data": data, "entries": entries, "externs": externs, "all": code + data, "abs": list(getattr(model, "abs_syms", []))}
 
 
 # --------------------------------------------------------------------------
@@ -545,6 +551,8 @@ def gen_session(rng, model, params, index):
         sd = _gen_session(rng, model, params, index)
         if wild or shape_ok(model, sd, params):
             sd["wild"] = wild
+            if sd["ops"] and rng.random() < params.get("debug_log_p", 0.08):
+                sd["debug_log"] = True  # knob: DEBUG logging reads the IR in mid-rewrite
             return sd
     return {"ops": [], "reg_order": [], "wild": False}
 
@@ -561,7 +569,7 @@ def patch_shape_tokens(pdesc, isa):
     for ln in pdesc["lines"]:
         if "label" in ln:
             toks.append(Tok("label", "x", name="(patch)" + ln["label"]))
-        elif "raw" in ln and (ln["raw"].startswith(".cfi") or ln["raw"].startswith(".align")):
+        elif "raw" in ln and (ln["raw"].startswith(".cfi") or ln["raw"].startswith(".align") or ln["raw"].startswith(".set")):
             continue
         elif "raw" in ln:
             toks.append(Tok("data", "x", b=b"\0"))
@@ -684,7 +692,7 @@ def ops_allowed(model, sd):
             return False
     for op in sd["ops"]:
         lines = (op.get("patch") or {}).get("lines")
-        if lines is not None and not any("label" not in l and not ("raw" in l and (l["raw"].startswith(".cfi") or l["raw"].startswith(".align"))) for l in lines):
+        if lines is not None and not any("label" not in l and not ("raw" in l and (l["raw"].startswith(".cfi") or l["raw"].startswith(".align") or l["raw"].startswith(".set"))) for l in lines):
             return False  # a patch must assemble to at least one byte
         lines = lines or []
         adj = [int(l["raw"].split()[-1]) for l in lines if "raw" in l and "cfi_adjust_cfa_offset" in l["raw"]]
@@ -900,6 +908,10 @@ def gen_same_patch_session(rng, model, params, index):
     if wl["externs"] and rng.random() < 0.4:
         lines.append({"v": "call", "t": rng.choice(wl["externs"])})
         lines.append({"v": "nop"})
+    if rng.random() < 0.25:
+        # a temporary name defined by assignment instead of a label ({T} is
+        # the temporary-label prefix of the insertion context)
+        lines.insert(rng.randrange(1, len(lines) + 1), {"raw": ".set {T}%sv, %d" % (tpre, rng.randint(1, 99))})
     patch = {"lines": lines}
     n = rng.randint(1, 8)
     ops = []
@@ -1037,7 +1049,16 @@ def _gen_session(rng, model, params, index):
             else:
                 i += 1
     if params.get("retarget_p") and rng.random() < params["retarget_p"]:
-        ops.extend(gen_retargets(rng, model, wl))
+        rts = gen_retargets(rng, model, wl)
+        ops.extend(rts)
+        if params.get("retarget_delete_p") and rng.random() < params["retarget_delete_p"]:
+            # ... and the old symbol is deleted in the same rewrite: every
+            # use was retargeted, so the deletion succeeds without force and
+            # the expressions keep referring to the new symbol
+            targets = {o["b"] for o in rts}
+            for o in rts:
+                if o["a"] not in targets and rng.random() < 0.6:
+                    ops.append({"k": "delsym", "name": o["a"], "force": rng.random() < 0.5})
     if params.get("delsym_p") and rng.random() < params["delsym_p"]:
         ops.extend(gen_delsyms(rng, model, wl, ops))
     if params.get("c09"):
